@@ -126,9 +126,41 @@ both_families! {
 				laws::<$T>(t, cx, a, b, c)?;
 			}};
 		}
+		// a value compared with borrowed views OF ITSELF that share its start address
+		// (parent / directory / base): must be judged like any other pair
+		macro_rules! self_views {
+			($T:ty, $v:expr, $kind:expr, [$($name:expr => $view:expr),*]) => {{
+				$(
+					let view: &$T = $view;
+					let exp = equiv($kind, $v.as_str(), view.as_str());
+					if let Ok(got) = guard(|| $v == view) {
+						ensure!(got == exp, format!("self-view:{}", $name), "{:?} == its own {} {:?} is {}, the documented equivalence says {}", $v.as_str(), $name, view.as_str(), got, exp);
+					}
+					if let Ok(got) = guard(|| view == $v) {
+						ensure!(got == exp, format!("self-view-rev:{}", $name), "{} {:?} == the value {:?} it was taken from is {}, the documented equivalence says {}", $name, view.as_str(), $v.as_str(), got, exp);
+					}
+					cx.obs(2);
+				)*
+			}};
+		}
 		match t.kind {
-			Kind::Reference => { go!(RiRef); cross(t, cx)?; }
-			Kind::Full => { go!(Ri); cross(t, cx)?; }
+			Kind::Reference => {
+				go!(RiRef);
+				cross(t, cx)?;
+				let r = RiRef::new(t.a.as_str()).unwrap();
+				self_views!(RiRef, r, Kind::Reference, ["base()" => r.base()]);
+			}
+			Kind::Full => {
+				go!(Ri);
+				cross(t, cx)?;
+				let r = Ri::new(t.a.as_str()).unwrap();
+				self_views!(Ri, r, Kind::Full, ["base()" => r.base()]);
+			}
+			Kind::Path if Path::new(t.a.as_str()).is_ok() => {
+				go!(Path);
+				let p = Path::new(t.a.as_str()).unwrap();
+				self_views!(Path, p, Kind::Path, ["directory()" => p.directory(), "parent_or_empty()" => p.parent_or_empty()]);
+			}
 			Kind::Authority => go!(Authority),
 			Kind::Path => go!(Path),
 			Kind::Segment => go!(Segment),
